@@ -9,6 +9,7 @@ import (
 
 	"github.com/go-json-experiment/json"
 	"github.com/go-json-experiment/json/jsontext"
+	jsonv1 "github.com/go-json-experiment/json/v1"
 	"pgregory.net/rapid"
 
 	"verif/harness/cov"
@@ -26,6 +27,7 @@ type UCase struct {
 	Sched  Sched  `json:"sched"`
 	Target int    `json:"target"` // see newTarget
 	Stream bool   `json:"stream"` // UnmarshalDecode over a stream instead of UnmarshalRead
+	Legacy bool   `json:"legacy,omitempty"` // with v1.ReportErrorsWithLegacySemantics(true): the input is validated ahead of decoding
 }
 
 // Rec is a struct target with a fallback for unknown members.
@@ -62,7 +64,15 @@ func newTarget(k int) any {
 }
 
 func (c UCase) opts() []json.Options {
-	return []json.Options{jsontext.AllowInvalidUTF8(c.UTF8), jsontext.AllowDuplicateNames(c.Dup)}
+	return append([]json.Options{jsontext.AllowInvalidUTF8(c.UTF8), jsontext.AllowDuplicateNames(c.Dup)}, c.callOpts()...)
+}
+
+// callOpts are the options given to the (Un)marshal call itself.
+func (c UCase) callOpts() []json.Options {
+	if c.Legacy {
+		return []json.Options{jsonv1.ReportErrorsWithLegacySemantics(true)}
+	}
+	return nil
 }
 
 // uShape is the structural view of an Unmarshal error: the chain of Go types
@@ -183,6 +193,9 @@ func RunU(c UCase) error {
 	}
 	// evidence
 	rec.Class("unmarshal-target-" + targetNames[c.Target])
+	if c.Legacy {
+		rec.Class("unmarshal-with-legacy-error-semantics")
+	}
 	if c.Stream {
 		rec.Class("unmarshal-decode-stream")
 	} else {
@@ -263,10 +276,10 @@ func runStream(c *UCase, mkReader func() io.Reader) error {
 		if sr, ok := r.(*schedReader); ok {
 			calls0 = sr.calls
 		}
-		if p := rt.Guard(func() { werr = json.UnmarshalDecode(dw, want) }); p != nil {
+		if p := rt.Guard(func() { werr = json.UnmarshalDecode(dw, want, c.callOpts()...) }); p != nil {
 			return fmt.Errorf("UnmarshalDecode (whole input) panicked: %v (%s)", p, ctx)
 		}
-		if p := rt.Guard(func() { gerr = json.UnmarshalDecode(dc, got) }); p != nil {
+		if p := rt.Guard(func() { gerr = json.UnmarshalDecode(dc, got, c.callOpts()...) }); p != nil {
 			return fmt.Errorf("UnmarshalDecode (chunked) panicked: %v (%s)", p, ctx)
 		}
 		ws, gs := ushapeOf(werr), ushapeOf(gerr)
@@ -315,7 +328,7 @@ func runStream(c *UCase, mkReader func() io.Reader) error {
 // genU draws a UCase.
 func genU(t *rapid.T) UCase {
 	c := UCase{UTF8: rapid.IntRange(0, 2).Draw(t, "allowutf8") == 0, Dup: rapid.IntRange(0, 2).Draw(t, "allowdup") == 0,
-		Target: rapid.IntRange(0, nTargets-1).Draw(t, "target"), Stream: rapid.Bool().Draw(t, "stream")}
+		Target: rapid.IntRange(0, nTargets-1).Draw(t, "target"), Stream: rapid.Bool().Draw(t, "stream"), Legacy: rapid.IntRange(0, 3).Draw(t, "legacy") == 0}
 	cfg := gen.DocCfg{WS: true, LongStr: rapid.IntRange(0, 3).Draw(t, "longstr") == 0, Dups: rapid.IntRange(0, 3).Draw(t, "dups") == 0, BadUTF8: rapid.IntRange(0, 4).Draw(t, "badutf8") == 0}
 	var in []byte
 	switch rapid.IntRange(0, 5).Draw(t, "shape") {
